@@ -130,7 +130,18 @@ func runC30(s *simrt.Sim) {
 			}
 		}
 		block := append([]byte(nil), buf.Bytes()...)
-		s.Note("op", fmt.Sprintf("list %d: %d fields, block %d bytes %x", li, n, len(block), clipb(block, 24)))
+		// the receiving side may stop emitting in the middle of a connection (bfe_http2 does for a
+		// header list over its limit): nothing is emitted, but the table must keep in step
+		dec.SetEmitEnabled(true)
+		rdec.SetEmitEnabled(true)
+		emitOff := split && tp.Chance(1, 6, "emit_off")
+		if emitOff {
+			dec.SetEmitEnabled(false)
+			rdec.SetEmitEnabled(false)
+			want = want[:0]
+			s.Fault("emit_disabled")
+		}
+		s.Note("op", fmt.Sprintf("list %d: %d fields, block %d bytes %x emit_off=%v", li, n, len(block), clipb(block, 24), emitOff))
 		got, ref = got[:0], ref[:0]
 		if err := feed(tp, dec, block, split); err != nil {
 			s.FailK("C30.roundtrip", "own-decoder-rejects-encoder-output", "header list %d: the decoder rejects what the encoder wrote: %v (block %x)", li, err, clipb(block, 64))
